@@ -8,6 +8,7 @@ HARNESS = {
     'heap': dict(src=['h_heap.cpp'], hdr=4, rec=3),
     'map': dict(src=['h_map.cpp'], hdr=5, rec=3),
     'hash': dict(src=['h_hash.cpp'], hdr=7, rec=4),
+    'mem': dict(src=['h_mem.cpp'], hdr=4, rec=3),
 }
 
 def g2_jobs(harness, cases_per_worker, workers=16, variant='asan', tagx=''):
@@ -236,6 +237,26 @@ def plan(prop, tier, seed, budget):
             py=[] if q else [g3_stats('hash')],
             rule=rule + ' Distinct = distinct case bytes.',
             assumptions=COMMON_ASSUME + ['rehash-pending statistics are read from the public struct fields (counters only)'],
+        )
+    elif prop == 'C05':
+        P = dict(
+            level='exploration',
+            builds=[('mem', 'asan')] + ([] if q else [('mem', 'rel'), ('mem', 'fuzz')]),
+            jobs=[g1_jobs('mem', ['2:2:1:seq4', '3:2:1:closure', '2:1:1:seq5'] if q else
+                          ['2:2:1:seq5', '3:2:2:closure', '4:3:1:closure', '2:1:1:seq6', '3:1:0:seq5'], 200000 if q else 4000000),
+                  g2_jobs('mem', 250000 if q else 2500000)] +
+                 ([] if q else [g2_jobs('mem', 250000, variant='rel'), g3_jobs('mem', 400000)]),
+            py=[] if q else [g3_stats('mem')],
+            rule='case = byte-coded history over pools of 1-4 shared, 1-3 weak and 1-3 unique pointer objects at fixed addresses: '
+                 'alloc (into empty or occupied objects), share, swap, reset, get, unique, weak_from, weak_lock (into empty or occupied '
+                 'owners), weak_swap, weak_reset, unique alloc/get/release/swap/reset; oracle = ownership model predicting, per operation, '
+                 'the exact ordered list of events observed during that operation (clear callback, free of the managed block, free of the '
+                 'bookkeeping block, mallocs) via link-time malloc/free interposition, plus after every op: get() of every co-owner, '
+                 'unique(), memory still allocated; end of case: every pointer reset and no library allocation left. G1 = all sequences to '
+                 'a depth over 2 shared + 2 weak + 1 unique objects (unpruned) and closure pruned on the MODEL state (flagged: hidden '
+                 'state could hide behind that pruning). Non-trivial: >= 1 lock of an expired weak pointer, >= 1 re-targeting of an '
+                 'occupied pointer that destroys an allocation, >= 1 swap between owners of different allocations. Distinct = case bytes.',
+            assumptions=COMMON_ASSUME + ['the bookkeeping block is any library allocation below 1000 bytes, managed blocks are 1000+serial bytes'],
         )
     else:
         raise SystemExit('no plan for property %s' % prop)
